@@ -33,8 +33,11 @@ def main():
                     else " ".join((mon.__doc__ or "").split())
                     + " || Explored per run: "
                     + mon.RULE
+                    + " || Applied to every case"
+                    + ("" if getattr(mon, "SPELLING", True) else " (argument spelling controlled by the monitor itself)")
+                    + ": random spelling of the root / -sf arguments (trailing and doubled separators, relative, ./, ., sub/..), -v at random, a random time zone, the system temp folder on the same or on another file system than the tree; further input classes added after the seeding rounds are listed per round in DESIGN.md section 8.5 and counted in the evidence file."
                     + " || Verdict: held on the executions observed (counts in the evidence file), never 'verified'; a run whose deciding counters are too low exits 2 (inconclusive).",
-                    "design_ref": f"DESIGN.md section 3, {p}",
+                    "design_ref": f"DESIGN.md section 3 ({p}) and section 8 (as built)",
                 },
                 "level_note": "; ".join(getattr(mon, "ASSUMPTIONS", [])) or "oracles O1-O7 of DESIGN.md section 2.4 are trusted",
                 "technique": getattr(mon, "TECHNIQUE", "runtime monitoring: reference-model oracle over generated executions of the real code"),
